@@ -759,6 +759,9 @@ class InterpStmts:
         invs = lc.get("inv") or lc.get("invariant") or []
         ghost_init = [n for t in (lc.get("ghost_init") or []) for n in ast.parse(t).body]
         ghost_step = [n for t in (lc.get("ghost_step") or []) for n in ast.parse(t).body]
+        if lc.get("seq_as") and getattr(spec, "as_list", None) is not None:
+            # ghost name for the sequence being iterated (e.g. the matcher's enumeration), usable in invariants / ghost_ensures
+            st = st.setvar(lc["seq_as"], spec.as_list)
         if ghost_init:
             outs = [o for o in self.exec_block(ghost_init, st)]
             if len(outs) != 1 or outs[0][0] != "next":
@@ -1264,7 +1267,8 @@ class InterpStmts:
         if isinstance(f, FuncVal):
             key = self.contract_key(f)
             c = self.cset.functions.get(key)
-            use_contract = c is not None and not c.get("inline") and not (st.pure and c.get("pure_inline", False))
+            use_contract = c is not None and not c.get("inline") and not c.get("inline_calls") \
+                and not (st.pure and c.get("pure_inline", False))
             if f.qualname.startswith("spec:"):
                 use_contract = False
             if use_contract and key == self.cur_key and not c.get("recursive"):
@@ -1520,8 +1524,15 @@ class InterpStmts:
             env_post[name] = newv
         # 6. postconditions
         env_post["result"] = result
-        for cl in (c.get("ensures") or []):
-            s2.pc.append(self.eval_spec(cl, s2, env_post, callee=f, old_state=pre, old_env=env))
+        post = [self.eval_spec(cl, s2, env_post, callee=f, old_state=pre, old_env=env) for cl in (c.get("ensures") or [])]
+        if st.pure:
+            # a contract call inside a specification / model context: the caller only keeps the value, so the callee's
+            # postcondition is recorded as a definitional fact about the fresh result (guarded by its precondition)
+            reqs = [self.eval_spec(r, st, env, callee=f) for r in (c.get("requires") or [])]
+            guard = z3.And(*(list(st.pc[len(getattr(self, "_pure_base_pc", [])):]) + reqs)) if (reqs or st.pc) else TRUE
+            self.define([z3.Implies(z3.And(*reqs) if reqs else TRUE, z3.And(*post))] if post else [])
+        else:
+            s2.pc.extend(post)
         yield result, s2.note("call %s" % label)
 
     def apply_modifies(self, st, c, env, f, label):
